@@ -987,6 +987,28 @@ void Engine<Policy>::op(const std::vector<std::string>& tok) {
         do_encode();
     } else if (cmd == "decode") {
         do_decode();
+    } else if (cmd == "cmpmatrix") {
+        // the real is_more_specific / is_base on every pair of definitions of every method (row-major, specs order)
+        if (!comp_) {
+            emit("cmp none");
+        } else {
+            for (auto& m : comp_->methods) {
+                long key = -1;
+                for (auto& [k, r] : methods_) {
+                    if (r.slot->info == m.info) {
+                        key = k;
+                    }
+                }
+                std::string ms, base;
+                for (auto& a : m.specs) {
+                    for (auto& b : m.specs) {
+                        ms += detail::compiler<Policy>::is_more_specific(&a, &b) ? '1' : '0';
+                        base += detail::compiler<Policy>::is_base(&a, &b) ? '1' : '0';
+                    }
+                }
+                emit("cmp " + std::to_string(key) + " n=" + std::to_string(m.specs.size()) + " ms=" + ms + " base=" + base);
+            }
+        }
     } else if (cmd == "call" || cmd == "vcall") {
         do_call(tok, false, 0);
     } else if (cmd == "callfinal") {
